@@ -249,6 +249,8 @@ def extra_scripts(seed, unb):
     return out
 
 
+NFEETIE = int(os.environ.get("VERIF_CHAIN_FEETIE_RUNS", "6"))    # independent executions of the fee-distribution tie scripts
+NAVS = int(os.environ.get("VERIF_CHAIN_AVS_RUNS", "5"))          # independent executions of the AVS task script
 NORACLE = int(os.environ.get("VERIF_CHAIN_ORACLE_RUNS", "12"))   # independent executions of the cheap oracle-only scripts
 
 
@@ -300,6 +302,50 @@ def oracle_scripts(seed, tier):
                 txs.append({"k": "send", "s": "s2", "o": "s3", "x": str(rng.randint(1, 10 ** 6))})
             blocks.append({"dt": 1, "txs": txs})
         out.append({"id": f"o-{seed}-{v}", "cfg": cfg, "blocks": blocks})
+    return out
+
+
+def feetie_scripts(seed, tier):
+    """fee distribution with TIES (strict off): the dogfood AVS accepts three assets (lst, lst2, nst); every validator's operator
+    gets stakers with exactly EQUAL USD value that hold DIFFERENT assets - a two-way tie at the top (s1: lst, s2: lst2; above the
+    operator's self stake) and a three-way tie below it (s3: nst, s4: lst, s5: lst2).  AllocateTokensToStakers ranges over the Go
+    map of the AVS assets to build its staker list and sorts by power only, so the position of tied stakers depends on the map
+    order; anything position-dependent (dust to the first entry, first-wins, order of writes) differs between executions.  Prices
+    stay fixed (no oracle messages), fees come from the per-epoch mint (odd amount -> truncation remainders) and from bank sends;
+    almost every block ends an epoch: >= 13 distributions x 3 validators per execution."""
+    out = []
+    for v in range(1 if tier == "quick" else 3):
+        rng = random.Random(seed * 211 + v)
+        cfg = base_cfg(1)
+        m = rng.choice([1, 3, 7])                     # common scale: keeps every tie exact
+        E6, E8, E18 = 10 ** 6, 10 ** 8, 10 ** 18
+        top = rng.choice([150, 200, 350])             # USD value of the top tie (> self stake 100)
+        low = 64                                      # USD value of the lower tie (NST: 2 beacon validators of 32)
+        ops3 = ["o1", "o2", "o3"]
+        b1 = [{"k": "dep", "s": "s1", "a": "lst", "x": str(4 * top * m * E6)},
+              {"k": "dep", "s": "s2", "a": "lst2", "x": str(4 * (top // 2) * m * E8)},      # lst2 price 2
+              {"k": "dep", "s": "s4", "a": "lst", "x": str(4 * low * m * E6)},
+              {"k": "dep", "s": "s5", "a": "lst2", "x": str(4 * (low // 2) * m * E8)}]
+        b1 += [{"k": "depnst", "s": "s3", "key": f"t{i}", "x": str(32 * E18)} for i in range(2 * 3 * m)]
+        b2, n = [], 0
+        for o in ops3:
+            for s_, a, x in (("s1", "lst", top * m * E6), ("s2", "lst2", (top // 2) * m * E8), ("s3", "nst", low * m * E18),
+                             ("s4", "lst", low * m * E6), ("s5", "lst2", (low // 2) * m * E8)):
+                n += 1
+                b2.append({"k": "del", "s": s_, "a": a, "o": o, "x": str(x), "n": n})
+        blocks = [{"dt": 1, "txs": b1}, {"dt": 1, "txs": b2}]
+        bump = rng.randint(6, 10)
+        for i in range(16):
+            txs = []
+            if rng.random() < 0.6:
+                txs.append({"k": "send", "s": "s2", "o": rng.choice(["s3", "o1", "o4"]), "x": str(rng.randint(1, 10 ** 9))})
+            if i == bump:      # both top stakers grow by the same USD value with every operator: the tie stays exact
+                for o in ops3:
+                    n += 2
+                    txs += [{"k": "del", "s": "s1", "a": "lst", "o": o, "x": str(10 * m * E6), "n": n - 1},
+                            {"k": "del", "s": "s2", "a": "lst2", "o": o, "x": str(5 * m * E8), "n": n}]
+            blocks.append({"dt": 1 if i in (0, 7) else 60, "txs": txs})
+        out.append({"id": f"x-feetie-{seed}-{v}", "cfg": cfg, "blocks": blocks})
     return out
 
 
@@ -456,6 +502,8 @@ def _run(tier, seed, harness, d, only_scripts=None):
             scripts.append((sc, None, False))
         for sc in oracle_scripts(seed, tier):
             scripts.append((sc, None, False))
+        for sc in feetie_scripts(seed, tier):
+            scripts.append((sc, None, False))
     else:
         K = 3
         unb = 1
@@ -468,6 +516,10 @@ def _run(tier, seed, harness, d, only_scripts=None):
             k = K
             if sc["id"].startswith("o-"):      # oracle-only stress script: many cheap executions, no export
                 exports, restarts, k = [], restarts[:1], max(K, NORACLE if tier == "quick" else 2 * NORACLE)
+            elif sc["id"].startswith("x-feetie"):   # tie-sensitive distribution: every execution samples 3 map orders per epoch end
+                k = max(K, NFEETIE if tier == "quick" else 3 * NFEETIE)
+            elif sc["id"].startswith("x-avs"):      # task grouping map: one statistics hook per execution
+                k = max(K, NAVS if tier == "quick" else 3 * NAVS)
             jobs.append((sc, b, strict, ex.submit(execute_script, harness, d, sc, k, seed, exports, restarts)))
         results = [(sc, b, strict, f.result()) for sc, b, strict, f in jobs]
 
